@@ -44,7 +44,8 @@ PROPS = {
 # ---- properties served by the S-ctl stream (real PfcpServer over loopback + reference data plane) ----
 def _ctl(k, profile, cases=24, events=40, tcases=250, tevents=60, extra=()):
     base = 32 + 12 * k
-    return dict(name="ctl", args=["net=%d" % base, "profile=" + profile, "cases=%d" % cases, "events=%d" % events],
+    return dict(name="ctl", args=["net=%d" % base, "profile=" + profile, "cases=%d" % cases, "events=%d" % events,
+                                  "corpus=/verif/corpus/%s.cases" % profile],
                 thorough_args=["cases=%d" % tcases, "events=%d" % tevents], shards=4, shards_thorough=12,
                 seed_per_shard=True, timeout=600, timeout_thorough=3000)
 
@@ -156,13 +157,19 @@ PROPS["C11"] = dict(
 PROPS["C12"] = dict(
     module="UpfVerif.Props.C12",
     streams=[_ctl(8, "urr")],
-    rule="ctl profile 'urr': Create/Update/Remove PDR with arbitrary URR lists (shared URRs, attach by Update PDR), Create/Remove/Query URR, deletion",
+    rule="corpus/urr.cases first (witness of known finding recreatePdrLive; minimised histories of the three repaired C12 defects; shared URRs through Update PDR and deletion), "
+         "then ctl profile 'urr': Create/Update/Remove PDR with arbitrary URR lists (shared URRs, repeated URR ids, attach by Update PDR, URRs created after the PDRs naming them, "
+         "live ids re-used), Create/Remove/Query URR, deletion, data-plane faults",
     trusted_base=_CTL_TB, assumptions=_CTL_ASSUME,
-    level_text="Kernel-checked (Props/C12.lean): dissociation at count 1 queries once and returns TERMR-flagged reports, above 1 only decrements, at 0 is silent; Remove URR "
-               "flags TERMR, Query URR IMMER; Update PDR counts the URRs it newly names (history attached_by_update_then_removed). Tie: S-ctl 'urr'.",
-    level_note="PARTIAL: 'count = number of PDRs naming the URR' is proved for the mechanisms, not as a global invariant — it fails in the code for PDRs naming a URR "
-               "created later and for Create PDR / Create URR re-using a live id (overwrite without adjusting counts); those histories are generated and compared, "
-               "model and code agree on them.",
+    level_text="Kernel-checked (Props/C12.lean, Lemmas/CoreRef.lean): count_is_refs — after ANY history of Create/Update/Remove/Query URR and Create/Update/Remove PDR (arbitrary URR lists, any driver "
+               "answers, any map-iteration order) in which no Create PDR re-uses a live PDR id, the recorded count of every known URR equals the number of PDRs whose current list names it; "
+               "remove_pdr_final_once / update_pdr_final_once — hence a Remove / Update PDR the data plane accepts queries exactly the URRs that lose their last referring PDR, once each, in whatever "
+               "order the map iteration takes (diassociateAll_ref by a loop invariant over the environment-chosen order); detach_last / detach_not_last / detach_at_zero_silent, remove_flags_termr, "
+               "query_flags_immer for the flags; recreate_live_pdr_breaks — the negation for a Create PDR on a live id (known finding). "
+               "Tie: S-ctl 'urr' in lock-step, with two external predicates on the implementation's own output: (a) a URR that loses its last referring PDR in a request (as the accepted requests say) "
+               "is queried exactly once and its reports come back flagged TERMR; (b) in every table dump the recorded count of each URR equals the number of PDRs whose recorded list names it.",
+    level_note="PARTIAL in one respect: the history theorem needs 'no Create PDR for a live PDR id' — without it the property is false of the code (known finding recreatePdrLive, witnessed on every run "
+               "by the corpus). Session deletion is covered by the lock-step tie and the C11 emission theorems (one report per URR, bookkeeping dropped after it), not by a separate C12 theorem.",
 )
 PROPS["C07"] = dict(
     module="UpfVerif.Props.C07",
